@@ -155,9 +155,34 @@ class RulesReadOnly(Leg):
         return "true"
 
 
+class SmallScope(LawsHistory):
+    """thorough tier only: the complete space of short histories over a fixed pool"""
+    name = "smallscope"
+    exhaustive = True
+    quick_n = 0
+    thorough_n = 1
+    shard = 400
+    rule = ("EXHAUSTIVE for this bounded space (thorough tier): every history of length <= 4 of u.laws = L|None and "
+            "L.applies_to = u|None over the pool {universes 0, 2 with their default law sets 1, 3, and a free law set 4}")
+    SEED = [["NU", [], None], ["NU", [], None], ["NL", None, 5]]
+
+    def generate(self, rng, n):
+        if n <= 0:
+            return
+        al = []
+        for u in (0, 2):
+            for L in (1, 3, 4, None):
+                al.append(["SL", u, L])
+        for L in (1, 3, 4):
+            for u in (0, 2, None):
+                al.append(["SA", L, u])
+        for ops in H.small_scope(self.SEED, al, 4):
+            yield {"ops": ops}
+
+
 class C19(Prop):
     pid = "C19"
-    legs = [LawsHistory(), RulesReadOnly()]
+    legs = [LawsHistory(), SmallScope(), RulesReadOnly()]
     assumptions = ["histories of well-typed calls; the bare constructor UniverseLaws(applies_to=u) is outside the statement's op set "
                    "(it stores the back pointer without telling u: theorem C19_bare_constructor_with_applies_to_breaks_binding)",
                    "rule attributes (edge_whitelist, mixed_links, cycles, multipath, multiverse) are not part of the Coq model: "
